@@ -3,6 +3,7 @@ PROP = dict(
     harness_mods=["Harness/C20.v"],
     runs=[dict(cmd="c20", quick=1500, thorough=10000),
           dict(cmd="c20sync", quick=100, thorough=700, timeout=6000),
+          dict(cmd="c20crash", quick=6, thorough=24, timeout=6000),
           dict(cmd="c20race", quick=30, thorough=300, race=True)],
     trusted_base=[
         "hand-written Gallina model coq/Sync/Queue.v of pkg/network/bqueue (lock regions as atomic actions), tied by serialised schedules of the real queue",
@@ -12,7 +13,8 @@ PROP = dict(
     assumptions=[
         "block indices do not wrap around uint32; Blocking queue mode (1 s ticker) is not modelled",
         "hash collision freedom: bytes delivered under a hash of the source trie are that node (genuine_op)",
-        "restarts are clean (Close + reopen): a crash between two flushes is not modelled here (H1, see notes/C20.md)",
+        "crashes are placed at flush boundaries between operations, at the module's own flushes and at every batch of the state jump; a flush BETWEEN two Puts of one AddMPTNodes call cannot be placed without editing MemCachedStore.Put (H1, see notes/C20.md)",
+        "the syncing node of the crash runs is configured with a trusted header (as a real light node): on a chain shorter than one page of header hashes the jump removes the genesis block a restart would walk back to",
         "ContractStorageBased (NeoFS) synchronisation mode and header/block fetchers are not covered",
     ],
     modelled="block queue and MPT-based state restore modelled and proved; Billet's in-memory tree is represented by the pool's (path, hash) pairs; jumpToState, header verification and block storage are exercised by the harness only",
